@@ -844,6 +844,35 @@ func (stmt *CreateIndexStmt) requiredPrivileges() []SQLPrivilege {
 	return []SQLPrivilege{SQLPrivilegeCreate}
 }
 
+// maxEncodedKeyLen is the size of EncodeValueAsKey for a non-null value of the column;
+// ok is false when it is not known (variable-sized column without a declared length)
+func maxEncodedKeyLen(col *Column) (n int, ok bool) {
+	switch col.colType {
+	case VarcharType, BLOBType:
+		if col.MaxLen() <= 0 {
+			return 0, false
+		}
+		return 1 + col.MaxLen() + EncLenLen, true
+	case IntegerType, TimestampType, Float64Type:
+		return 9, true
+	case BooleanType:
+		return 2, true
+	case UUIDType:
+		return 17, true
+	}
+	return 0, false
+}
+
+func colsByID(table *Table, colIDs []uint32) []*Column {
+	cols := make([]*Column, 0, len(colIDs))
+	for _, id := range colIDs {
+		if col, err := table.GetColumnByID(id); err == nil {
+			cols = append(cols, col)
+		}
+	}
+	return cols
+}
+
 func (stmt *CreateIndexStmt) inferParameters(ctx context.Context, tx *SQLTx, params map[string]SQLValueType) error {
 	return nil
 }
@@ -887,6 +916,32 @@ func (stmt *CreateIndexStmt) execAt(ctx context.Context, tx *SQLTx, params map[s
 
 	if !tx.engine.lazyIndexConstraintValidation && indexKeyLen > MaxKeyLen {
 		return nil, fmt.Errorf("%w: can not create index using columns '%v'. Max key length is %d", ErrLimitedKeyType, stmt.cols, MaxKeyLen)
+	}
+
+	// Every entry of the index has the key
+	//   prefix | M. | table id | index id | encoded column values | encoded primary key
+	// and VARCHAR/BLOB values are padded up to the declared length of their column, so the size of
+	// the key does not depend on the values. An index whose keys do not fit the store can never be
+	// built (the indexer fails on its first entry and retries forever, and every statement that has
+	// to wait for that index blocks): refuse it here, with or without lazy constraint validation.
+	if table.primaryIndex != nil {
+		entryKeyLen := len(tx.sqlPrefix()) + len(MappedPrefix) + 2*EncIDLen
+		sized := true
+
+		for _, cols := range [][]*Column{colsByID(table, colIDs), table.primaryIndex.cols} {
+			for _, col := range cols {
+				n, ok := maxEncodedKeyLen(col)
+				if !ok {
+					sized = false
+				}
+				entryKeyLen += n
+			}
+		}
+
+		if maxLen := tx.engine.store.MaxKeyLen(); sized && entryKeyLen > maxLen {
+			return nil, fmt.Errorf("%w: can not create index using columns '%v': its entries would have keys of %d bytes. Max key length is %d",
+				ErrLimitedKeyType, stmt.cols, entryKeyLen, maxLen)
+		}
 	}
 
 	if stmt.unique && table.primaryIndex != nil {
